@@ -322,7 +322,10 @@ def check_case(case) -> Verdict:
     exact = amp * (np.pi ** 2 * tz[0] * tp[0])
     _, got = get(D1, fam)
     err = np.abs(got - exact)
-    tol = bnd1[fam] + 1e-300
+    # absolute floor: when the polynomial (almost) vanishes at the nodes, delta f itself is rounding
+    # noise of the natural size of the family, amplitude * pi^2 * sum|c_k(Pz)| * sum|c_k(Pp)|
+    natural = float(np.max(np.abs(amp))) * np.pi ** 2 * float(np.sum(np.abs(tz))) * float(np.sum(np.abs(tp)))
+    tol = bnd1[fam] + KR * EPS * natural + 1e-300
     v.info["moment_err/bound"] = float(np.max(err / tol))
     v.info["exact_over_abs_sum"] = float(np.max(np.abs(exact)) / (np.max(bnd1[fam]) / (KR * EPS) + 1e-300))
     if not np.all(err <= tol):
